@@ -76,3 +76,13 @@ Proof.
   - intros h [<-|[<-|[<-|[]]]]; Lra.lra.
   - intros h [<-|[<-|[<-|[]]]]; Lra.lra.
 Qed.
+
+(* ---- Krum (added): "drop the first of the m-f-1 smallest distances" IS "the m-f-2 nearest OTHER
+   rows": the dropped entry is the distance of the row to itself ---- *)
+From TJ.proofs Require Import QPProofs C18Proofs ScalingProofs.
+Theorem C16_krum_neighbourhood : forall G nc i, (i < length G)%nat ->
+  nth i (krum_scores RN (krum_distances RN G) nc) 0 =
+  vsumR (firstn nc (isort RN (map (fun j => krum_dist RN G i j)
+                                   (seq 0 i ++ seq (S i) (length G - S i))))).
+Proof. exact krum_scores_of_gramian. Qed.
+Print Assumptions C16_krum_neighbourhood.
